@@ -1,6 +1,7 @@
 package main
 
 import (
+	"encoding/json"
 	"fmt"
 	"os"
 	"strings"
@@ -25,8 +26,19 @@ func main() {
 }
 
 func debugMain(repo string, args []string) {
+	if args[0] == "inventory" {
+		os.Setenv("GOATCHECK_NO_RENAME", "1")
+		p := loadProg(repo, "", "")
+		b, _ := json.MarshalIndent(inventoryOf(p.Pkgs), "", " ")
+		fmt.Println(string(b))
+		return
+	}
 	p := loadProg(repo, "", "")
 	switch args[0] {
+	case "renames":
+		for _, r := range p.Renames {
+			fmt.Println(r)
+		}
 	case "funcs":
 		for _, f := range p.Funcs {
 			fmt.Println(p.fnKey(f), p.pos(f.Pos()))
